@@ -321,6 +321,7 @@ def pl_points_ok(pts, n, v, y):
 # ---------------------------------------------------------------------------------------
 # C08 harnesses (the engine extracts closed-form expressions from the real code through these)
 from py_ballisticcalc.conditions import Atmo  # noqa: E402
+from py_ballisticcalc.constants import *  # noqa: E402,F401,F403
 from py_ballisticcalc.unit import Distance, Temperature, Pressure  # noqa: E402
 
 
@@ -360,3 +361,10 @@ def h_density_prediction_ratio(t0, p0, t, p):
     station = Atmo.calculate_air_density(t0, p0, 0.0) / 1.2250
     predicted = station * ((t0 + 273.15) * p) / (p0 * (t + 273.15))
     return predicted / (Atmo.calculate_air_density(t, p, 0.0) / 1.2250)
+
+
+def query_set_humidity_query(atmo, h1, hum, h2):
+    """history harness (C08/C10): an atmosphere is queried, its humidity is changed, it is queried again"""
+    atmo.get_density_factor_and_mach_for_altitude(h1)
+    atmo.humidity = hum
+    return atmo.get_density_factor_and_mach_for_altitude(h2)
